@@ -146,6 +146,11 @@ func (p *Program) VerifyFunc(fi *FuncInfo) (res *FuncResult) {
 	for _, ca := range c.Calls {
 		pos := findCallPos(fi, ca)
 		if !pos.IsValid() {
+			if ca.Ordinal > 0 && !ca.Assume {
+				// the n-th call this rule is about no longer exists: reported at the end as a failed obligation
+				// named after the rule
+				continue
+			}
 			res.Unsupported = append(res.Unsupported, fmt.Sprintf("%s: call assertion [%s]: no call of %s in %s (hint-mismatch)", ca.Clause.Line, ca.Clause.Label, ca.Callee, fi.Key))
 			bad = true
 			continue
@@ -376,7 +381,13 @@ func (p *Program) VerifyFunc(fi *FuncInfo) (res *FuncResult) {
 	}
 	for _, ca := range c.Calls {
 		if !e.callAsserted[ca] {
-			res.Unsupported = append(res.Unsupported, fmt.Sprintf("call assertion [%s] on %s was never reached (hint-mismatch)", ca.Clause.Label, ca.Callee))
+			if ca.Assume || ca.Ordinal == 0 {
+				res.Unsupported = append(res.Unsupported, fmt.Sprintf("call assertion [%s] on %s was never reached (hint-mismatch)", ca.Clause.Label, ca.Callee))
+				continue
+			}
+			// the contract says what the n-th call of the callee must satisfy; the function no longer makes that call:
+			// the rule attached to it is not established (a failed obligation named after the rule, no model)
+			e.Ctx.AddObligation(res.Func, "assert", fmt.Sprintf("%s/assert/%s", res.Func, ca.Clause.Label), True, False, ca.Clause.Line)
 		}
 	}
 	p.buildModsets()
